@@ -31,6 +31,7 @@ var charsets = []struct{ name, locale string }{
 	{"ISO8859-9", "x.ISO8859-9"}, {"ISO8859-10", "x.ISO8859-10"}, {"ISO8859-13", "x.ISO8859-13"}, {"ISO8859-14", "x.ISO8859-14"}, {"ISO8859-15", "x.ISO8859-15"},
 	{"ISO8859-16", "x.ISO8859-16"}, {"KOI8-R", "ru_RU.KOI8-R"}, {"KOI8-U", "uk_UA.KOI8-U"}, {"EUC-JP", "ja_JP.EUC-JP"}, {"SHIFT_JIS", "ja_JP.SHIFT_JIS"},
 	{"EUC-KR", "ko_KR.EUC-KR"}, {"GB18030", "zh_CN.GB18030"}, {"GBK", "zh_CN.GBK"}, {"Big5", "zh_TW.Big5"},
+	{"GB2312", "zh_CN.GB2312"}, // the locale's GB2312 is the EUC form of GB 2312-80 (common.EUCCN), whatever codec is registered under the name
 }
 
 // encodable: r round-trips through the charset's codec (the codec defines the charset).
@@ -60,6 +61,9 @@ func encodable(enc xenc.Encoding, r rune) bool {
 func asymmetric(enc xenc.Encoding, r rune) bool {
 	if enc == nil {
 		return false
+	}
+	if enc == common.EUCCN && common.EUCCNAmbiguous(r) {
+		return true // GB 2312-80 proper and the GBK table differ there
 	}
 	var src [4]byte
 	n := utf8.EncodeRune(src[:], r)
@@ -124,7 +128,7 @@ func newRigEnv(ti *terminfo.Terminfo, cs string, wd, ht int) (*rig, string) {
 	os.Setenv("TCELL_TRUECOLOR", "disable")
 	r := &rig{ti: ti, cs: cs, fb: map[rune]string{}}
 	if cs != "UTF-8" {
-		r.enc = tcell.GetEncoding(cs)
+		r.enc = common.RefCodec(cs, tcell.GetEncoding(cs))
 	}
 	m, set := acs(ti)
 	r.glyphs = set
